@@ -18,6 +18,8 @@ by an independent dense numpy recomputation:
 import numpy
 from .. import core
 from .. import c14_lin as lin
+from .. import c14_nl as nl
+from .. import c14_cons as cons
 
 LEVEL = 'exploration'
 RULE = ('(a) Matrix.solve on ALL 1x1 and 2x2 matrices over {0,1,-1,2,1/2} plus named 3x3 / ill-conditioned / rectangular families (thorough: all symmetric, '
@@ -33,7 +35,7 @@ ASSUMPTIONS = ['dense numpy arithmetic (matmul, norm, cond, inv) is the referenc
                'with atol=rtol=0 a residual <= 1e-8*(|A||x|+|b|) is demanded only when the reduced matrix has condition number < 1e6',
                'backends: numpy always, scipy when importable from /verif/.deps (MKL not installed)',
                'complex-valued systems and rconstrain combined with float constraints (rejected by an assert) are not enumerated']
-BUDGET_S = {'quick': 400, 'thorough': 3000}
+BUDGET_S = {'quick': 1500, 'thorough': 6000}
 
 _quiet = None
 
@@ -98,14 +100,46 @@ def _lin_shards(tier):
     return out
 
 
+NL_BUCKETS = {'A': ['default', 'direct', 'newton', 'reuse', 'arnoldi'], 'B': ['ls-norm', 'ls-median', 'pseudo1', 'pseudo100'], 'C': ['minimize'], 'L': []}
+
+
+def _nl_shards(tier):
+    out = []
+    for i, (spec, guesses) in enumerate(nl.problems(tier)):
+        prob = nl.Problem(spec)
+        for bucket in NL_BUCKETS:
+            if bucket == 'C' and not prob.functional:
+                continue
+            out.append({'part': 'nl', 'problem': i, 'fam': spec['fam'], 'bucket': bucket})
+    return out
+
+
+def _step_shards(tier):
+    out = []
+    for name, ode in nl.ODES.items():
+        for mname in nl.STEP_METHODS:
+            out.append({'part': 'step', 'ode': name, 'method': mname})
+    return out
+
+
+def _cons_shards(tier):
+    out = [{'part': 'cons', 'chunk': [i, 8]} for i in range(8)]
+    for n in ((2,) if tier == 'quick' else (1, 2, 3)):
+        for sub in cons.SUBS:
+            out.append({'part': 'project', 'n': n, 'sub': sub})
+    return out
+
+
 def shards(tier, seed):
-    return _lin_shards(tier)
+    # simplest first: linear solves, constraint projection, nonlinear solves, time steps
+    return _lin_shards(tier) + _cons_shards(tier) + _nl_shards(tier) + _step_shards(tier)
 
 
 def run_shard(spec, tier, seed):
     quiet()
     res = core.ShardResult()
-    if spec['part'] == 'lin':
+    part = spec['part']
+    if part == 'lin':
         mats = _lin_family(spec['family'], tier)
         i, n = spec['chunk']
         mats = mats[i::n]
@@ -115,6 +149,20 @@ def run_shard(spec, tier, seed):
             lin.explore_histories(res, spec['backend'], mats, tier)
         else:
             lin.explore_invalid(res, spec['backend'], mats, tier)
+    elif part == 'nl':
+        pspec, guesses = nl.problems(tier)[spec['problem']]
+        bucket = spec['bucket']
+        methods = NL_BUCKETS[bucket] + (['minimize'] if bucket == 'B' and not nl.Problem(pspec).functional else [])
+        nl.explore(res, pspec, guesses, tier, methods, nl.LEGACY if bucket == 'L' else [])
+    elif part == 'step':
+        for depth in (1, 3):  # single steps first so that the shortest witness of a defect is among the first recorded
+            for T in nl.ODES[spec['ode']]['steps']:
+                for K in (0, 1, 2):
+                    nl.explore_steps(res, spec['ode'], spec['method'], tier, [T, K], depth=depth)
+    elif part == 'cons':
+        cons.explore_functionals(res, spec['chunk'], tier)
+    elif part == 'project':
+        cons.explore_project(res, spec['n'], spec['sub'], tier)
     else:
         raise core.HarnessError('unknown shard {}'.format(spec))
     return res
@@ -122,8 +170,17 @@ def run_shard(spec, tier, seed):
 
 def replay(w):
     quiet()
-    if w['part'] == 'lin':
+    part = w['part']
+    if part == 'lin':
         return lin.replay(w)
+    if part == 'nl':
+        return nl.replay(w)
+    if part == 'step':
+        return nl.replay_step(w)
+    if part == 'cons':
+        return cons.replay_functional(w)
+    if part == 'project':
+        return cons.replay_project(w)
     raise core.HarnessError('unknown witness {}'.format(w))
 
 
